@@ -312,7 +312,9 @@ def formulaToCompositionWith (prefixes suffixes : List (List Char)) (s : List Ch
         | .error e => .error e
 
 /-- `formula_to_composition(formula)` with the default prefixes (`_latex_mapping.keys()`) and suffixes;
-    this is also `Substance.from_formula(formula).composition` -/
+    this is also `Substance.from_formula(formula).composition` whenever `from_formula` returns at all:
+    it first evaluates `formula_to_latex/unicode/html(formula)`, which on the pinned tree raise UnboundLocalError for a
+    written zero charge (`Fe+0`, `Fe-0`) — a defect of `_formula_to_format` reported in notes/C01.md, not modelled here. -/
 def formulaToCompositionL (s : List Char) : Except ErrKind Comp :=
   formulaToCompositionWith prefixesL suffixesL s
 
